@@ -223,8 +223,12 @@ func replayWitnessPath(m map[string]any) int {
 		u8 := uni.New(seed, 8, []int{0})
 		g := wh.NewCPGen(u8)
 		for _, l := range logs {
-			cp, meta := g.Get(l, u8.Main, 2, "plain")
-			show("seed "+l.Origin, wh.Req{LogID: l.ID(), CP: cp, Meta: meta, Label: "main@2 plain"})
+			at := 2
+			if f, ok := m["seed_size"].(float64); ok && f >= 0 {
+				at = int(f)
+			}
+			cp, meta := g.Get(l, u8.Main, at, "plain")
+			show("seed "+l.Origin, wh.Req{LogID: l.ID(), CP: cp, Meta: meta, Label: fmt.Sprintf("main@%d plain", at)})
 		}
 	}
 	if p, ok := m["path"].([]any); ok {
